@@ -302,6 +302,7 @@ class EmptyOp(IRDLOperation):
             printer.print_string("(")
             printer.print_string(")")
 
+        printer.print_op_attributes(self.attributes)
         printer.print_string(" : ")
         printer.print_attribute(self.tensor.type)
 
@@ -320,10 +321,12 @@ class EmptyOp(IRDLOperation):
             dynamic_sizes = parser.resolve_operands(
                 unresolved_dynamic_sizes, unresolved_types, pos
             )
+        attrs = parser.parse_optional_attr_dict()
         parser.parse_punctuation(":")
         result_type = parser.parse_attribute()
 
         empty = cls(dynamic_sizes, result_type)
+        empty.attributes |= attrs
 
         return empty
 
@@ -734,6 +737,7 @@ class ExtractOp(IRDLOperation):
         printer.print_string("[")
         printer.print_list(self.indices, printer.print_ssa_value)
         printer.print_string("]")
+        printer.print_op_attributes(self.attributes)
         printer.print_string(" : ")
         printer.print_attribute(self.tensor.type)
 
@@ -743,10 +747,13 @@ class ExtractOp(IRDLOperation):
         indices = parser.parse_comma_separated_list(
             delimiter=parser.Delimiter.SQUARE, parse=parser.parse_operand
         )
+        attrs = parser.parse_optional_attr_dict()
         parser.parse_punctuation(":")
         source_tensor_type = parser.parse_type()
         tensor_type = cast(TensorType[Attribute], source_tensor_type)
-        return cls(tensor, indices, tensor_type.get_element_type())
+        op = cls(tensor, indices, tensor_type.get_element_type())
+        op.attributes |= attrs
+        return op
 
 
 @irdl_op_definition
@@ -788,6 +795,7 @@ class InsertOp(IRDLOperation):
         printer.print_string("[")
         printer.print_list(self.indices, printer.print_ssa_value)
         printer.print_string("]")
+        printer.print_op_attributes(self.attributes)
         printer.print_string(" : ")
         printer.print_attribute(self.dest.type)
 
@@ -799,9 +807,12 @@ class InsertOp(IRDLOperation):
         indices = parser.parse_comma_separated_list(
             delimiter=parser.Delimiter.SQUARE, parse=parser.parse_operand
         )
+        attrs = parser.parse_optional_attr_dict()
         parser.parse_punctuation(":")
         parser.parse_type()
-        return cls(scalar, dest, indices)
+        op = cls(scalar, dest, indices)
+        op.attributes |= attrs
+        return op
 
 
 @irdl_op_definition
